@@ -1,12 +1,16 @@
 """C13 - Async commit barrier: commit after all arrive; errors reach every rank.
 
 The REAL LinearBarrier and the REAL PendingSnapshot._complete_snapshot run as one managed thread per rank under
-the deterministic scheduler (lib/dsched.py).  The store is lib.world.FakeStore (set/get/wait are scheduling
-points); the pending I/O, the storage and the event loop are fakes whose sync_complete / sync_write are
-scheduling points and can be failed.  One choice sequence = one execution; dsched.explore enumerates them.
+the deterministic scheduler (lib/dsched.py).  The store is C13Store, a lib.world.FakeStore (set/get/wait are
+scheduling points) whose wait can RAISE A TIMEOUT when the scheduler picks that choice; the pending I/O, the storage
+and the event loop are fakes whose sync_complete / sync_write are scheduling points and can be failed; ranks can be
+ABSENT (no background thread: what a rank that raised inside async_take leaves behind).  One choice sequence = one
+execution; dsched.explore enumerates them.  A choice is (worker, go | timeout): `timeout` is offered for every worker
+parked at a store.wait (whether or not its keys are present) in the scenarios that allow timeouts.
 On every execution (a) the property is evaluated directly on the event log (oracle -> Failure) and (b) the
-schedule is replayed in the Coq model (obs_barrier) and every step's operation, the set of enabled ranks before
-every step and the final outcomes are compared (correspondence -> Mismatch).
+schedule is replayed in the Coq model (obs_barrier) and every step's operation, the sets of ranks whose normal step /
+whose timeout is enabled before every step and the final outcomes (incl. who timed out) are compared
+(correspondence -> Mismatch).
 The full public path (Snapshot.async_take + wait inside lib.world.World) is run a few times as well."""
 from __future__ import annotations
 
@@ -22,39 +26,60 @@ from lib.tocoq import Nat, Raw, term, val
 PROP = "C13"
 PROPS_FILE = "props/C13.v"
 GEN = ["gen_barrier"]
-CORRESPONDENCES = ["barrier:real-LinearBarrier+_complete_snapshot~model(steps,enabled-sets,outcomes)",
+CORRESPONDENCES = ["barrier:real-LinearBarrier+_complete_snapshot~model(steps,enabled-sets,timeout-sets,outcomes)",
                    "barrier:legacy-shared-prefix-witnesses-reproduce",
-                   "async_take:public-path-oracle"]
+                   "async_take:public-path-oracle",
+                   "barrier:timeout-and-absent-rank-witnesses-reproduce"]
 RULE = ("single snapshots: ALL interleavings (dsched.explore) of the real background threads for W=2 and W=3 "
         "(W=4: capped DFS + random; thorough: larger caps) x every single fault (each rank's I/O, the leader's "
         "metadata write) and no fault, plus sampled double faults; histories of length 2 and 3 over "
         "{success, I/O failure at r, metadata failure} x {same path, different path} with distinct barrier ids, "
         "sequential (next snapshot starts after the previous finished: capped DFS) and overlapping (all background "
         "threads of all snapshots at once: random schedules); the legacy situation (two snapshots with the SAME "
-        "barrier id on one path) as replay of the refuted witnesses; real Snapshot.async_take+wait twice to one path "
-        "inside the simulated world with rank 1 starved. A case is one complete execution; non-trivial = world "
-        "size >= 2; distinct by (scenario, choice sequence).")
+        "barrier id on one path) as replay of the refuted witnesses; WITH TIMEOUTS (every worker parked at a store.wait "
+        "gets an extra choice `its wait raises`, also when its keys are present): exact replay of the Coq witnesses "
+        "(depart-timeout split, spurious leader timeout, absent peer, absent leader), then DFS over go/timeout choices "
+        "for W=1, 2 (exhaustive in the thorough tier) and capped DFS + random for W=3, 4, x every single fault and no "
+        "fault; ABSENT ranks (no background thread): every non-empty proper subset of ranks for W=2, 3 (sampled for "
+        "W=4) x {no fault, I/O failure of a present rank, metadata failure}, with timeouts (DFS + random) and without "
+        "(blocked for ever is the expected observation); random histories of 2-3 overlapping or sequential snapshots "
+        "with absent ranks and timeouts; real Snapshot.async_take+wait twice to one path inside the simulated world "
+        "with rank 1 starved. A case is one complete execution; non-trivial = world size >= 2; distinct by (scenario, "
+        "choice sequence).")
 TRUSTED = [
     "Coq 8.16.1 kernel and vm_compute (no native_compute); theorems closed under the global context",
-    "translator/gen_barrier.py (Python ast -> skeleton of arrive/depart/report_error/_complete_snapshot and the prefix expression)",
-    "hand-written transition system coq/model/Barrier.v, tied to the code by the skeleton equality "
-    "(proofs/BarrierInst.v) and by step-by-step correspondence with the real threads under lib/dsched.py",
+    "translator/gen_barrier.py (Python ast -> skeleton of arrive/depart/report_error/_complete_snapshot incl. the timeout "
+    "argument of every store.wait, the timeout passed to arrive/depart, what the handler catches and does, and the "
+    "prefix expression)",
+    "hand-written transition system coq/model/Barrier.v (normal steps, timeout steps, absent ranks), tied to the code by "
+    "the skeleton equality and the wait-site / timeout-is-reported facts (proofs/BarrierInst.v) and by step-by-step "
+    "correspondence with the real threads under lib/dsched.py",
     "lib/dsched.py + lib/world.py FakeStore: a dist.Store whose set/get/wait are atomic and sequentially consistent, "
-    "keys never deleted; harness/props/C13.py fakes for PendingIOWork / StoragePlugin / event loop",
+    "keys never deleted; harness/props/C13.py: C13Store (FakeStore whose wait raises a RuntimeError subclass when the "
+    "scheduler picks the timeout choice), fakes for PendingIOWork / StoragePlugin / event loop",
 ]
 ASSUMPTIONS = [
     "barrier prefixes of different snapshots are distinct: the 63-bit random id broadcast by rank 0 does not repeat "
     "within one job for the same path (probability, not proved)",
     "the store holds no key under a snapshot's prefix before that snapshot starts (follows from the previous item "
     "for a store used only by torchsnapshot)",
-    "store operations are atomic and totally ordered; wait() blocks without timeout (timeouts are not modelled)",
+    "store operations are atomic and totally ordered. Timeouts ARE modelled, without a clock: a store.wait may raise at "
+    "any moment from the call on, whether or not its keys are present (this over-approximates every timeout value, "
+    "DEFAULT_BARRIER_TIMEOUT = 1800 s included); what it raises is an Exception (c10d raises RuntimeError / "
+    "DistStoreError), so `except Exception` in _complete_snapshot catches it. Assumed instead: store.set and store.get "
+    "never raise and never time out (get is only called on keys that a wait has seen, keys are never deleted) - in "
+    "particular barrier.report_error inside the handler succeeds; if it raised, exc_info would not be recorded and "
+    "wait() would return normally (not modelled: the store stays reachable)",
+    "a rank absent from the protocol never sets a key of the snapshot's prefix and has no PendingSnapshot (async_take "
+    "raised on it); whether its peers get as far as the barrier (async_take's broadcast of the barrier id comes first) "
+    "is a matter of the process group (C12), not of this model",
     "the metadata write is atomic: a failed write leaves no committed metadata (storage-plugin behaviour, cf. C02/C03)",
     "in the protocol model sync_complete raising an Exception is the only way a rank's I/O fails in the background phase; "
     "what the REAL PendingIOWork raises (and whether it raises at all) when a write fails while sibling writes are in flight is "
     "exercised end to end (check_public_faults), not modelled",
 ]
 IMPORTS = "From TS Require Import model.Barrier.\n"
-IN_TYPE = "list BarrierSpecT * list choice"
+IN_TYPE = "list BarrierSpecT * list BarrierChoiceT"
 
 
 # =========================================================================== driving the real code
@@ -66,6 +91,45 @@ class C13IOError(OSError):
 # AssertionError(), ...) must be propagated exactly like any other; so must messages that look like key values
 import itertools
 _MESSAGES = itertools.cycle(["injected failure", "", "0", "Rank 1 encountered error: nested", " "])
+
+
+class C13StoreTimeout(RuntimeError):
+    """What dist.Store.wait(keys, timeout) raises when the timeout expires (c10d: RuntimeError / DistStoreError)."""
+
+
+def make_store(world, allow_timeouts):
+    """lib.world.FakeStore whose wait() can time out.  A worker entering wait registers itself in `pending` (so the
+    harness sees who stands at a store.wait, ready or not); when timeouts are allowed the scheduling point is always
+    enabled and the chooser (run_scenario.wrapped) decides go / timeout for it; `timeout` makes wait raise."""
+    from lib.world import FakeStore
+
+    class C13Store(FakeStore):
+        def __init__(self, world):
+            super().__init__(world)
+            self.allow_timeouts = allow_timeouts
+            self.pending = {}        # worker name -> (ready(), keys, timeout argument)
+            self.decision = {}       # worker name -> "go" | "timeout"   (set by the chooser just before the grant)
+
+        def wait(self, keys, timeout=None):
+            keys = list(keys)
+            name = self.world.sched.current().name
+            ready = lambda: all(k in self.d for k in keys)          # noqa: E731
+            self.pending[name] = (ready, keys, timeout)
+            try:
+                # without an explicit timeout the store's own default timeout applies (600 s in create_store): a
+                # wait can time out either way, the model has no clock
+                self.world.sched.point(f"store.wait:{len(keys)}", enabled=None if self.allow_timeouts else ready)
+            finally:
+                self.pending.pop(name, None)
+            if self.decision.pop(name, "go") == "timeout":
+                self.world.event("store_timeout", keys=keys, has_timeout_arg=timeout is not None)
+                raise C13StoreTimeout(next(_TIMEOUT_MESSAGES))
+            self.world.event("store_wait", keys=keys)
+
+    return C13Store(world)
+
+
+_TIMEOUT_MESSAGES = itertools.cycle(["Socket Timeout", "", "wait timeout after 1800000ms, keys: /torchsnapshot_x_0"])
 
 
 class C13PendingIO:
@@ -120,15 +184,18 @@ def worker_of(name: str):
 class C13Run:
     def __init__(self):
         self.events = []
-        self.enabled = []        # per non-start step: list of (inst, rank) enabled before the step
-        self.choices = []        # non-forced (choice, n)
+        self.enabled = []        # per non-start step: list of (inst, rank, "go" | "timeout") options before the step
+        self.waiting = []        # per non-start step: list of (inst, rank) parked at a store.wait before the step
+        self.choices = []        # non-forced (choice among the options, number of options)
         self.deadlock = None
         self.trace = []
 
 
-def run_scenario(W, insts, mode, choose) -> C13Run:
-    """Run the real background completion of every snapshot in `insts` (dicts: path, bid, iofail, metafail).
-    mode 'seq': snapshot k+1 starts when all threads of snapshot k have finished; 'par': all at once."""
+def run_scenario(W, insts, mode, choose, timeouts=False) -> C13Run:
+    """Run the real background completion of every snapshot in `insts` (dicts: path, bid, iofail, metafail, absent).
+    mode 'seq': snapshot k+1 starts when all threads of snapshot k have finished; 'par': all at once.
+    Ranks in inst['absent'] get no thread.  `choose(options)` picks among [(worker name, label, "go" | "timeout")];
+    "timeout" options exist only when `timeouts` is set: one for every worker parked at a store.wait."""
     import logging
     logging.disable(logging.CRITICAL)
     from torchsnapshot.manifest import SnapshotMetadata
@@ -136,22 +203,37 @@ def run_scenario(W, insts, mode, choose) -> C13Run:
     from lib.world import World
 
     run = C13Run()
-    forced = []
 
     def wrapped(labels):
         for i, (name, label) in enumerate(labels):
             if label.startswith("start:"):
-                forced.append(True)
                 return i
-        forced.append(False)
-        run.enabled.append([worker_of(n) for n, _ in labels])
-        return choose(labels)
+        store = world.store
+        options = []
+        for i, (name, label) in enumerate(labels):
+            if name in store.pending:
+                if store.pending[name][0]():
+                    options.append((i, name, label, "go"))
+                if timeouts:
+                    options.append((i, name, label, "timeout"))
+            else:
+                options.append((i, name, label, "go"))
+        run.enabled.append([worker_of(n) + (k,) for _, n, _, k in options])
+        run.waiting.append(sorted(worker_of(n) for n in store.pending))
+        c = choose([(n, l, k) for _, n, l, k in options]) % len(options)
+        run.choices.append((c, len(options)))
+        i, name, _, kind = options[c]
+        store.decision[name] = kind
+        return i
 
     world = World(W, choose=wrapped)
+    world.store = make_store(world, timeouts)
     meta = SnapshotMetadata(version="0", world_size=W, manifest={})
 
     def spawn(k, inst):
         for r in range(W):
+            if r in inst.get("absent", ()):
+                continue
             def body(k=k, r=r, inst=inst):
                 ps = object.__new__(PendingSnapshot)
                 ps.path, ps.pg, ps.exc_info, ps._done = inst["path"], None, None, False
@@ -176,15 +258,14 @@ def run_scenario(W, insts, mode, choose) -> C13Run:
         run.deadlock = list(world.sched.deadlock)
     run.events = world.events
     run.trace = [t for t in world.sched.trace if not t[1].startswith("start:")]
-    run.choices = [c for c, f in zip(world.sched.choices, forced) if not f]
     return run
 
 
-STEP_KINDS = ("io_done", "io_fail", "store_set", "store_get", "store_wait", "meta_written", "meta_fail")
+STEP_KINDS = ("io_done", "io_fail", "store_set", "store_get", "store_wait", "store_timeout", "meta_written", "meta_fail")
 
 
 def observe(W, insts, run: C13Run, prefix_ids):
-    """-> (schedule [(inst, rank)], per-step observations, per-instance observations) in the model's encoding."""
+    """-> (schedule [(inst, rank, is_timeout)], per-step observations, per-instance observations) in the model's encoding."""
     def key_of(k: str):
         pre, _, rk = k.rpartition("_")
         return prefix_ids.get(pre, -1), int(rk)
@@ -192,10 +273,17 @@ def observe(W, insts, run: C13Run, prefix_ids):
     def vclass(b: bytes) -> int:
         return 0 if len(b) == 0 else 1
 
+    def wait_keys(e, k):
+        ks = [key_of(x) for x in e["keys"]]
+        ps = {p for p, _ in ks}
+        p = ps.pop() if len(ps) == 1 else prefix_ids[barrier_prefix(insts[k])]
+        return p, [kr for _, kr in ks]
+
     sched, ops = [], []
-    outcome = [[2] * W for _ in insts]
+    outcome = [[3 if r in inst.get("absent", ()) else 2 for r in range(W)] for inst in insts]
     meta = [0] * len(insts)
     iodone = [[0] * W for _ in insts]
+    tmo = [[0] * W for _ in insts]
     for e in run.events:
         k, r = worker_of(e["thread"])
         kind = e["kind"]
@@ -204,7 +292,7 @@ def observe(W, insts, run: C13Run, prefix_ids):
             continue
         if kind not in STEP_KINDS:
             continue
-        sched.append((k, r))
+        sched.append((k, r, kind == "store_timeout"))
         if kind == "io_done":
             ops.append([1, 1]); iodone[k][r] = 1
         elif kind == "io_fail":
@@ -214,18 +302,19 @@ def observe(W, insts, run: C13Run, prefix_ids):
         elif kind == "store_get":
             p, kr = key_of(e["key"]); ops.append([4, p, kr, vclass(e["value"])])
         elif kind == "store_wait":
-            ks = [key_of(x) for x in e["keys"]]
-            ps = {p for p, _ in ks}
-            p = ps.pop() if len(ps) == 1 else prefix_ids[barrier_prefix(insts[k])]
-            ops.append([3, p, [kr for _, kr in ks]])
+            p, rs = wait_keys(e, k); ops.append([3, p, rs])
+        elif kind == "store_timeout":
+            p, rs = wait_keys(e, k); ops.append([6, p, rs]); tmo[k][r] = 1
         elif kind == "meta_written":
             ops.append([5, 1]); meta[k] = 1
         elif kind == "meta_fail":
             ops.append([5, 0])
     steps = []
-    for (k, r), op, en in zip(sched, ops, run.enabled):
-        steps.append([op, sorted(rr for kk, rr in en if kk == k)])
-    inst_obs = [[outcome[k], meta[k], iodone[k]] for k in range(len(insts))]
+    for (k, r, _), op, en, wt in zip(sched, ops, run.enabled, run.waiting):
+        # normal step enabled: the real thread was offered "go"; timeout enabled: the real thread stood at a store.wait
+        steps.append([op, sorted(rr for kk, rr, kind in en if kk == k and kind == "go"),
+                      sorted(rr for kk, rr in wt if kk == k)])
+    inst_obs = [[outcome[k], meta[k], iodone[k], tmo[k]] for k in range(len(insts))]
     return sched, steps, inst_obs
 
 
@@ -239,14 +328,16 @@ def prefix_id_map(insts):
 def model_case(W, insts, run: C13Run):
     ids = prefix_id_map(insts)
     sched, steps, inst_obs = observe(W, insts, run, ids)
-    specs = [(ids[barrier_prefix(i)], Nat(W), [Nat(r) for r in sorted(i["iofail"])], bool(i["metafail"])) for i in insts]
-    inp = f"({term(specs)}, {term([(Nat(k), Nat(r)) for k, r in sched])})"
+    specs = [(ids[barrier_prefix(i)], Nat(W), [Nat(r) for r in sorted(i["iofail"])], bool(i["metafail"]),
+              [Nat(r) for r in sorted(i.get("absent", ()))]) for i in insts]
+    inp = f"({term(specs)}, {term([(Nat(k), Nat(r), bool(t)) for k, r, t in sched])})"
     return inp, val([steps, inst_obs]), (sched, steps, inst_obs)
 
 
 # =========================================================================== the property, evaluated directly
-def oracle(W, insts, run: C13Run):
-    """-> list of (signature suffix, text).  Exactly the property text, per snapshot instance."""
+def oracle(W, insts, run: C13Run, timeouts=False):
+    """-> list of (signature suffix, text).  Exactly the property text, per snapshot instance; causes of errors are
+    faults of the plan, absent ranks and store.wait timeouts (taken from the event log: the wait that raised)."""
     out = []
     ev = run.events
     for k, inst in enumerate(insts):
@@ -254,8 +345,13 @@ def oracle(W, insts, run: C13Run):
         io_done = {e["rank"]: n for n, e in mine if e["kind"] == "io_done"}
         metas = [n for n, e in mine if e["kind"] == "meta_written"]
         fin = {e["rank"]: (n, e["ok"]) for n, e in mine if e["kind"] == "finished"}
+        tmo = sorted({e["rank"] for n, e in mine if e["kind"] == "store_timeout"})
+        absent = sorted(inst.get("absent", ()))
         fault_io = sorted(inst["iofail"])
         fault = bool(fault_io) or inst["metafail"]
+        okr = sorted(r for r, (n, ok) in fin.items() if ok)
+        raised = sorted(r for r, (n, ok) in fin.items() if not ok)
+        # ---- safety, in every execution (complete or not)
         if metas:
             late = [r for r in range(W) if r not in io_done or io_done[r] > metas[0]]
             if late:
@@ -266,45 +362,86 @@ def oracle(W, insts, run: C13Run):
                 out.append(("success-before-commit",
                             f"snapshot {k}: rank {r} reported success before the metadata was written"))
                 break
+        # a fault of the plan, an absent rank, or a timeout of the leader's wait: nobody succeeds, nothing is committed
+        if (fault or absent or 0 in tmo) and okr:
+            out.append(("fault-not-propagated",
+                        f"snapshot {k}: fault plan io={fault_io} meta={inst['metafail']} absent={absent} timed out={tmo} "
+                        f"but rank(s) {okr} report success"))
+        if (fault_io or absent or 0 in tmo) and metas:
+            out.append(("committed-despite-io-failure",
+                        f"snapshot {k}: metadata written although io failed on {fault_io} / ranks {absent} never arrived / "
+                        f"the leader's wait timed out ({0 in tmo})"))
+        # a rank whose store.wait raised a timeout never reports success
+        sw = [r for r in tmo if r in okr]
+        if sw:
+            out.append(("timeout-swallowed", f"snapshot {k}: store.wait timed out on rank(s) {sw} but their wait() returns normally"))
+        # no error without a cause: a rank raises only if the plan has a fault or some wait of this snapshot timed out;
+        # after the commit only a rank whose own wait timed out
+        if raised and not fault and not tmo:
+            out.append(("spurious-error", f"snapshot {k}: no fault, no timeout, but rank(s) {raised} raised"))
+        elif metas and [r for r in raised if r not in tmo]:
+            out.append(("spurious-error-after-commit",
+                        f"snapshot {k}: metadata written, yet rank(s) {[r for r in raised if r not in tmo]} raised without a timeout of their own"))
+        # ---- outcomes of complete executions
         if run.deadlock is None:
-            if fault:
-                okr = [r for r in range(W) if fin.get(r, (0, False))[1]]
-                if okr:
-                    out.append(("fault-not-propagated",
-                                f"snapshot {k}: fault plan io={fault_io} meta={inst['metafail']} but rank(s) {okr} report success"))
-                if fault_io and metas:
-                    out.append(("committed-despite-io-failure",
-                                f"snapshot {k}: metadata written although the I/O of rank(s) {fault_io} failed"))
-            else:
-                bad = [r for r in range(W) if not fin.get(r, (0, False))[1]]
+            missing = [r for r in range(W) if r not in fin and r not in absent]
+            if missing:
+                out.append(("thread-vanished", f"snapshot {k}: background thread of rank(s) {missing} ended without an outcome"))
+            if not fault and not absent and not tmo:
+                bad = [r for r in range(W) if r not in okr]
                 if bad:
-                    out.append(("spurious-error", f"snapshot {k}: no fault, but rank(s) {bad} raised"))
+                    out.append(("spurious-error", f"snapshot {k}: no fault, but rank(s) {bad} did not succeed"))
     if run.deadlock is not None:
-        out.append(("deadlock", f"background threads stuck: {run.deadlock}"))
+        # blocked for ever is what the protocol does when a rank never arrives and no wait is allowed to time out
+        # (30 minutes in the library); in every other scenario it is a violation
+        expected = (not timeouts) and any(inst.get("absent") for inst in insts)
+        if not expected:
+            out.append(("deadlock", f"background threads stuck: {run.deadlock}"))
+    elif not timeouts:
+        # conversely: a rank absent, no fault in the plan, no wait allowed to time out - the others cannot have finished
+        for k, inst in enumerate(insts):
+            ab = sorted(inst.get("absent", ()))
+            if ab and len(ab) < W and not inst["iofail"] and not inst["metafail"]:
+                out.append(("left-without-timeout", f"snapshot {k}: rank(s) {ab} never arrived, no fault, no wait timed out, "
+                                                    f"yet every background thread finished"))
     return out
 
 
 # =========================================================================== scenarios
-def mk_inst(path, bid, iofail=(), metafail=False):
-    return {"path": path, "bid": bid, "iofail": set(iofail), "metafail": bool(metafail)}
+def mk_inst(path, bid, iofail=(), metafail=False, absent=()):
+    return {"path": path, "bid": bid, "iofail": set(iofail), "metafail": bool(metafail), "absent": set(absent)}
 
 
 def jsonable_insts(insts):
-    return [{"path": i["path"], "bid": i["bid"], "iofail": sorted(i["iofail"]), "metafail": i["metafail"]} for i in insts]
+    return [{"path": i["path"], "bid": i["bid"], "iofail": sorted(i["iofail"]), "metafail": i["metafail"],
+             "absent": sorted(i.get("absent", ()))} for i in insts]
 
 
 def guided(schedule, then=None):
-    """choose function that follows a list of (inst, rank); afterwards `then` (default: first enabled)."""
+    """choose function that follows a list of (inst, rank) [normal step] / (inst, rank, "t") [timeout]; afterwards
+    `then` (default: first option)."""
     todo = list(schedule)
 
-    def choose(labels):
+    def choose(options):
         if todo:
-            k, r = todo.pop(0)
-            for i, (name, _) in enumerate(labels):
-                if worker_of(name) == (k, r):
+            c = todo.pop(0)
+            k, r, kind = c[0], c[1], ("timeout" if len(c) > 2 else "go")
+            for i, (name, _, kd) in enumerate(options):
+                if worker_of(name) == (k, r) and kd == kind:
                     return i
-            raise RuntimeError(f"guided schedule: worker i{k}r{r} is not enabled; enabled: {labels}")
-        return then(labels) if then else 0
+            raise RuntimeError(f"guided schedule: {kind} of worker i{k}r{r} is not enabled; options: {options}")
+        return then(options) if then else 0
+    return choose
+
+
+def random_chooser(rng, p_timeout=0.12):
+    """uniform among the normal steps; a timeout (when offered) with probability p_timeout"""
+    def choose(options):
+        go = [i for i, o in enumerate(options) if o[2] == "go"]
+        to = [i for i, o in enumerate(options) if o[2] == "timeout"]
+        if to and (not go or rng.random() < p_timeout):
+            return rng.choice(to)
+        return rng.choice(go)
     return choose
 
 
@@ -348,16 +485,29 @@ class C13Collector:
         self.next_bid += 7
         return self.next_bid
 
-    def record(self, tag, W, insts, mode, run: C13Run, expect_violation=False):
-        replay = {"W": W, "insts": jsonable_insts(insts), "mode": mode, "choices": [c for c, _ in run.choices]}
+    def record(self, tag, W, insts, mode, run: C13Run, expect_violation=False, timeouts=False):
+        replay = {"W": W, "insts": jsonable_insts(insts), "mode": mode, "choices": [c for c, _ in run.choices],
+                  "timeouts": timeouts}
         self.res.case({"scenario": tag, "W": W, "insts": jsonable_insts(insts), "mode": mode,
-                       "choices": [c for c, _ in run.choices]}, nontrivial=W >= 2)
+                       "choices": [c for c, _ in run.choices], "timeouts": timeouts}, nontrivial=W >= 2)
         self.res.count("scenario", tag.split(":")[0])
         self.res.count("W", W)
         self.res.count("steps", len(run.trace))
         self.res.count("fault_plan", "+".join(("io" + ",".join(map(str, sorted(i["iofail"]))) if i["iofail"] else "") +
-                                               ("meta" if i["metafail"] else "") or "ok" for i in insts))
-        viol = oracle(W, insts, run)
+                                               ("meta" if i["metafail"] else "") +
+                                               ("absent" + ",".join(map(str, sorted(i["absent"]))) if i.get("absent") else "")
+                                               or "ok" for i in insts))
+        viol = oracle(W, insts, run, timeouts)
+        ntmo = sum(1 for e in run.events if e["kind"] == "store_timeout")
+        self.res.count("timeouts_allowed", bool(timeouts))
+        self.res.count("timeout_steps_in_run", min(ntmo, 4))
+        if run.deadlock is not None:
+            self.res.count("blocked_for_ever(absent rank, no timeouts)", tag.split(":")[0])
+        for k, inst in enumerate(insts):
+            fins = {e["rank"]: e["ok"] for e in run.events if e["kind"] == "finished" and worker_of(e["thread"])[0] == k}
+            if timeouts and not expect_violation and any(fins.values()) and not all(fins.get(r, False) for r in range(W)) and len(fins) == W:
+                # some succeeded, some raised: only through a peer's own timeout in depart (C13_timeout_error_reaches_everyone_refuted)
+                self.res.count("outcome_split_by_depart_timeout(as refuted theorem predicts)", f"W={W}")
         for e in run.events:
             if e["kind"] == "finished":
                 self.res.count("outcome", "success" if e["ok"] else "raised")
@@ -375,25 +525,25 @@ class C13Collector:
         self.meta.append(replay)
         return viol
 
-    def explore(self, tag, W, insts, mode, cap, expect_violation=False):
+    def explore(self, tag, W, insts, mode, cap, expect_violation=False, timeouts=False):
         def mk(choose):
-            run = run_scenario(W, insts, mode, choose)
+            run = run_scenario(W, insts, mode, choose, timeouts)
             return C13Sched(run.choices), run
         n = 0
         for _, run in dsched.explore(mk, max_runs=cap):
-            self.record(tag, W, insts, mode, run, expect_violation)
+            self.record(tag, W, insts, mode, run, expect_violation, timeouts)
             n += 1
         if n < cap:
-            self.res.count("exhaustive_scenarios", f"W={W}")
+            self.res.count("exhaustive_scenarios", f"W={W}" + ("+timeouts" if timeouts else ""))
         else:
-            self.res.count("capped_scenarios", f"W={W}")
+            self.res.count("capped_scenarios", f"W={W}" + ("+timeouts" if timeouts else ""))
         return n
 
-    def sample(self, tag, W, insts, mode, k, expect_violation=False):
+    def sample(self, tag, W, insts, mode, k, expect_violation=False, timeouts=False, p_timeout=0.12):
         rng = self.ctx.rng
         for _ in range(k):
-            run = run_scenario(W, insts, mode, lambda labels: rng.randrange(len(labels)))
-            self.record(tag, W, insts, mode, run, expect_violation)
+            run = run_scenario(W, insts, mode, random_chooser(rng, p_timeout), timeouts)
+            self.record(tag, W, insts, mode, run, expect_violation, timeouts)
 
     def flush(self):
         bad, errs = coqrun.run_cases("C13_b", IMPORTS, "obs_barrier", self.coq, shard=400, in_type=IN_TYPE)
@@ -496,6 +646,87 @@ def check_legacy(c: C13Collector):
             c.explore(f"legacy:W{W}:{name}-then-ok", W, insts, "seq", ctx.n(40, 900) if W == 3 else ctx.n(80, 800),
                       expect_violation=True)
             c.sample(f"legacy:W{W}:{name}-then-ok:par", W, insts, "par", ctx.n(4, 30), expect_violation=True)
+
+
+# =========================================================================== timeouts and absent ranks
+# real-code schedules of the Coq witnesses / examples (coq/props/C13.v); (inst, rank) = normal step, (inst, rank, "t") = timeout
+WITNESS_TIMEOUTS = [
+    # C13_timeout_error_reaches_everyone_refuted: the leader has read rank 1's key, rank 1's depart wait times out,
+    # the leader commits and succeeds, rank 1 raises
+    ("depart-timeout-split", 2, {}, [(0, 0), (0, 1), (0, 1), (0, 0), (0, 0), (0, 1, "t"), (0, 0), (0, 0), (0, 1)],
+     {"ok": [True, False], "meta": True, "tmo": [1]}),
+    # C13_example_leader_timeout: spurious timeout of the leader's wait; rank 1 reads the leader's error key
+    ("leader-timeout", 2, {}, [(0, 0), (0, 1), (0, 1), (0, 0, "t"), (0, 0), (0, 1), (0, 1), (0, 1)],
+     {"ok": [False, False], "meta": False, "tmo": [0]}),
+    # C13_example_absent_peer: rank 2 never arrives; the leader's timeout is enough, rank 1 reads the error key
+    ("absent-peer", 3, {"absent": (2,)}, [(0, 0), (0, 1), (0, 1), (0, 0, "t"), (0, 0), (0, 1), (0, 1), (0, 1)],
+     {"ok": [False, False, None], "meta": False, "tmo": [0]}),
+    # C13_example_absent_leader: nobody writes the leader's key; each peer leaves through its own timeout
+    ("absent-leader", 3, {"absent": (0,)}, [(0, 1), (0, 1), (0, 2), (0, 2), (0, 1, "t"), (0, 1), (0, 2, "t"), (0, 2)],
+     {"ok": [None, False, False], "meta": False, "tmo": [1, 2]}),
+]
+
+
+def check_timeouts(c: C13Collector):
+    """store.wait timeouts (also spurious ones) and ranks absent from the protocol, on the real LinearBarrier /
+    _complete_snapshot: exact replay of the Coq witnesses, then the neighbourhood (DFS over go/timeout choices)."""
+    ctx = c.ctx
+    rng = ctx.rng
+    where = CORRESPONDENCES[3]
+    for name, W, kw, schedule, want in WITNESS_TIMEOUTS:
+        insts = [mk_inst("/ckpt/a", c.bid(), **kw)]
+        try:
+            run = run_scenario(W, insts, "seq", guided(schedule), timeouts=True)
+        except RuntimeError as e:
+            c.res.mismatches.append(Mismatch(where, {"witness": name}, f"witness schedule not executable on the real code: {e}", None))
+            continue
+        c.record(f"timeout:witness:{name}", W, insts, "seq", run, timeouts=True)
+        fin = {e["rank"]: e["ok"] for e in run.events if e["kind"] == "finished"}
+        got = {"ok": [fin.get(r) for r in range(W)], "meta": any(e["kind"] == "meta_written" for e in run.events),
+               "tmo": sorted(e["rank"] for e in run.events if e["kind"] == "store_timeout")}
+        if got != want:
+            c.res.mismatches.append(Mismatch(where, {"witness": name, "schedule": schedule}, want, got))
+    # the absent-rank witnesses WITHOUT timeouts: blocked for ever (C13_example_absent_peer_blocks)
+    for W, ab in ((3, (2,)), (3, (0,)), (2, (1,)), (2, (0,))):
+        insts = [mk_inst("/ckpt/a", c.bid(), absent=ab)]
+        n = c.explore(f"absent:W{W}:a{''.join(map(str, ab))}:blocked", W, insts, "seq", ctx.n(30, 400))
+    # single snapshots with timeouts: every plan; W <= 2 exhaustively (thorough), W = 3, 4 capped DFS + random
+    for name, io, mf in single_fault_plans(1):
+        c.explore(f"timeout:W1:{name}", 1, [mk_inst("/ckpt/a", c.bid(), io, mf)], "seq", 200, timeouts=True)
+    for name, io, mf in single_fault_plans(2):
+        cap = ctx.n(150, 30000)
+        n = c.explore(f"timeout:W2:{name}", 2, [mk_inst("/ckpt/a", c.bid(), io, mf)], "seq", cap, timeouts=True)
+        if n >= cap:
+            c.sample(f"timeout:W2:{name}", 2, [mk_inst("/ckpt/a", c.bid(), io, mf)], "seq", ctx.n(30, 100), timeouts=True)
+    for W in (3, 4):
+        for name, io, mf in single_fault_plans(W):
+            c.explore(f"timeout:W{W}:{name}", W, [mk_inst("/ckpt/a", c.bid(), io, mf)], "seq", ctx.n(25, 800 if W == 3 else 200), timeouts=True)
+            c.sample(f"timeout:W{W}:{name}", W, [mk_inst("/ckpt/a", c.bid(), io, mf)], "seq", ctx.n(12, 90), timeouts=True,
+                     p_timeout=rng.choice([0.05, 0.12, 0.3]))
+    # absent ranks with timeouts: every non-empty proper subset for W = 2, 3; sampled for W = 4; with and without a fault
+    for W in (2, 3, 4):
+        subsets = [ab for n in range(1, W) for ab in itertools.combinations(range(W), n)]
+        if W == 4:
+            subsets = rng.sample(subsets, ctx.n(4, 6))
+        for ab in subsets:
+            present = [r for r in range(W) if r not in ab]
+            plans = [((), False)] + [((rng.choice(present),), False)] + ([((), True)] if 0 not in ab else [])
+            for io, mf in plans:
+                insts = [mk_inst("/ckpt/a", c.bid(), io, mf, absent=ab)]
+                tag = f"absent:W{W}:a{''.join(map(str, ab))}:{'io' + str(io[0]) if io else 'meta' if mf else 'none'}"
+                c.explore(tag, W, insts, "seq", ctx.n(20, 600 if W < 4 else 150), timeouts=True)
+                c.sample(tag, W, insts, "seq", ctx.n(4, 20), timeouts=True, p_timeout=0.1)
+    # histories: overlapping snapshots, some with absent ranks, with timeouts (par: all threads at once)
+    for _ in range(ctx.n(10, 40)):
+        W = rng.choice([2, 2, 3])
+        n = rng.choice([2, 2, 3])
+        insts = []
+        for q in range(n):
+            _, io, mf = rng.choice(history_elements(W))
+            ab = () if rng.random() < 0.6 else tuple(rng.sample(range(W), rng.randint(1, W - 1)))
+            insts.append(mk_inst(f"/ckpt/p{rng.randrange(2)}", c.bid(), io, mf, absent=ab))
+        c.sample(f"history:W{W}:n{n}:par+timeouts", W, insts, "par", ctx.n(3, 8), timeouts=True, p_timeout=rng.choice([0.05, 0.2]))
+        c.explore(f"history:W{W}:n{n}:seq+timeouts", W, insts, "seq", ctx.n(4, 30), timeouts=True)
 
 
 # =========================================================================== the public path
@@ -643,6 +874,7 @@ def correspond(ctx: Ctx) -> Result:
     check_legacy(c)
     check_single(c)
     check_histories(c)
+    check_timeouts(c)
     c.flush()
     check_public(ctx, res)
     check_public_faults(ctx, res)
@@ -666,27 +898,38 @@ def replay(ctx: Ctx, data):
         world, r, errs = public_run(ctx, data["W"], data["policy"], 2, data.get("same_path", True), data.get("seed", 0))
         v = public_oracle(data["W"], world, r, errs, 2)
         return Failure(f"C13:{v[0][0]}", v[0][1], data) if v else None
-    insts = [mk_inst(i["path"], i["bid"], i["iofail"], i["metafail"]) for i in data["insts"]]
-    run = run_scenario(data["W"], insts, data["mode"], from_choices(data["choices"]))
-    v = oracle(data["W"], insts, run)
+    insts = [mk_inst(i["path"], i["bid"], i["iofail"], i["metafail"], i.get("absent", ())) for i in data["insts"]]
+    run = run_scenario(data["W"], insts, data["mode"], from_choices(data["choices"]), data.get("timeouts", False))
+    v = oracle(data["W"], insts, run, data.get("timeouts", False))
     return Failure(f"C13:{v[0][0]}", v[0][1], data) if v else None
 
 
 MANIFEST = {
     "level_text": ("Machine-checked proof (Coq 8.16.1) over a transition-system model of LinearBarrier.arrive/depart/"
                    "report_error and PendingSnapshot._complete_snapshot (one store operation / I/O completion / metadata "
-                   "write per step, arbitrary overlap of snapshot instances): commit-after-all-arrive, "
-                   "depart-after-commit, error-reaches-everyone, no-error-without-fault, deadlock freedom, outcomes of "
-                   "complete schedules and termination under round-robin are proved by an inductive invariant for every "
-                   "world size, fault plan, schedule and history with pairwise distinct barrier prefixes; instance "
-                   "independence is proved; the shared-prefix situation (before the per-snapshot barrier id) is refuted "
-                   "by vm_compute witnesses. The model is tied to the source on every run by a fail-closed ast translator "
-                   "(skeleton equality by reflexivity) and by step-by-step correspondence with the real LinearBarrier and "
-                   "_complete_snapshot running as threads under a deterministic scheduler over all interleavings for "
-                   "small worlds, plus end-to-end async_take runs in the simulated world."),
+                   "write per step, arbitrary overlap of snapshot instances) that includes store.wait TIMEOUTS (a rank "
+                   "about to wait may take a timeout step at any time, also spuriously; the exception is caught, "
+                   "report_error writes the rank's error key, the rank ends Raised) and ranks ABSENT from the protocol. "
+                   "Proved by an inductive invariant for every world size, fault plan, set of absent ranks, schedule "
+                   "with arbitrarily many timeouts and history with pairwise distinct barrier prefixes: "
+                   "commit-after-all-arrive and depart-after-commit (unchanged); error-reaches-everyone for a fault, an "
+                   "absent rank or a timeout of the leader; after the commit only a peer's own depart timeout makes it "
+                   "raise (and that case is a refutation witness: the snapshot is committed, the peer raises); no error "
+                   "without a fault or a timeout; what a timeout step does in every continuation; absent rank => nobody "
+                   "succeeds, nothing committed, leader-absent vs peer-absent; with timeouts no live rank is ever stuck, "
+                   "executions are bounded, maximal executions and round-robin with fair timeouts end with every existing "
+                   "thread finished; without timeouts, deadlock freedom and round-robin termination for the all-present "
+                   "case; instance independence; the shared-prefix situation (before the per-snapshot barrier id) is "
+                   "refuted by vm_compute witnesses. The model is tied to the source on every run by a fail-closed ast "
+                   "translator (skeleton equality, wait sites, timeout arguments, handler structure by reflexivity) and by "
+                   "step-by-step correspondence (operation, normal-enabled set, timeout-enabled set, outcomes, who timed "
+                   "out) with the real LinearBarrier and _complete_snapshot running as threads under a deterministic "
+                   "scheduler with a store whose wait can raise, over all interleavings for small worlds, plus "
+                   "end-to-end async_take runs in the simulated world."),
     "level_note": ("Trusted: Coq kernel+VM, translator/gen_barrier.py, the deterministic thread scheduler and fake store "
-                   "(atomic, sequentially consistent operations), the fakes for pending I/O / storage. Assumes distinct "
-                   "63-bit barrier ids per snapshot, no store timeouts, atomic metadata write. No axioms."),
+                   "(atomic, sequentially consistent operations; wait may raise, set/get never do), the fakes for pending "
+                   "I/O / storage. Assumes distinct 63-bit barrier ids per snapshot, atomic metadata write, timeouts "
+                   "without a clock (any wait may raise at any time), report_error's store.set succeeds. No axioms."),
     "technique": "Coq invariant proofs over a protocol transition system + exhaustive-interleaving correspondence with the real threads",
     "design_ref": "DESIGN.md section 5, C13",
 }
